@@ -198,8 +198,9 @@ CHECKS = {
             "active update incl. the capped negative one (active_rank_one_positive/negative, active_inverse_update), infeasible_inv under the inv contract, "
             "active_update_inverse / mo_update_inverse for one whole update, the (1+lambda) success rule, A A^T=C under the Cholesky contract and "
             "preservation of positive definiteness (onepl_cov_rule, onepl_factor, onepl_posdef), MO selection count / rank-then-indicator closed form / "
-            "alignment of the five per-parent lists (mo_select_count, mo_rank_then_hv, mo_alignment, mo_adjust_spec, mo_offspring_values). Not proved: "
-            "the active inverse invariant chained through constraint updates over whole histories (active_inverse_history_Statement; one round proved). "
+            "alignment of the five per-parent lists (mo_select_count, mo_rank_then_hv, mo_alignment, mo_adjust_spec, mo_offspring_values), and the "
+            "whole-history invariants active_inverse_history (invA A = I through every rank-one branch and constraint update), mo_inverse_history, "
+            "mo_psucc_sigma_history and onepl_factor_history (A A^T = C, C positive definite after every round). No unproved statement remains. "
             "The Float instance of the same definitions is diffed against the real strategies on 1..300-round histories and the statement is evaluated "
             "as an oracle after every round while cond(A)<1e12.",
             TB + "numpy.linalg.cholesky/inv (LAPACK), numpy.around, sortLogNondominated (C04) and the hypervolume indicator (C15) are model parameters whose "
